@@ -237,10 +237,13 @@ def openTypeOS2TypoLineGapFallback(info):
 
 def openTypeOS2WinAscentFallback(info):
     """
-    Fallback to *ascender + typoLineGap*.
+    Fallback to *ascender + typoLineGap*, or zero if that's negative
+    (usWinAscent is an unsigned field).
     """
-    return getAttrWithFallback(info, "ascender") + getAttrWithFallback(
-        info, "openTypeOS2TypoLineGap"
+    return max(
+        getAttrWithFallback(info, "ascender")
+        + getAttrWithFallback(info, "openTypeOS2TypoLineGap"),
+        0,
     )
 
 
